@@ -383,7 +383,9 @@ Proof.
 Qed.
 
 (* LINEARIZABILITY OF THE VALUE MODEL (repaired code): the recorded history of every complete execution of
-   Store / Load / LoadAndDelete programs, any keys and values, any schedule, is linearizable with respect to the
+   Store / Load / LoadAndDelete / LoadOrStore / LoadOrStoreLazy / Delete programs (LazyMap.opk; LoadOrStore's found
+   path reads marked and the value WITHOUT the node lock after waiting for fullyLinked, as the code does), any keys
+   and values, any schedule, is linearizable with respect to the
    finite-map specification (the one the verified checker uses on the real histories): no lost update, no value
    returned that was never stored, a LoadAndDelete that wins returns the current value; the final specification
    state is the final abstract map {(key, value) | fullyLinked, not marked} *)
@@ -395,6 +397,26 @@ Theorem C04_lazymap_linearizable : forall progs sched,
 Proof.
   exact (fun progs sched Q => conj (LzmLinThm.lazymap_linearizable progs sched Q) (LzmLinThm.lazymap_lin_to progs sched Q)).
 Qed.
+
+(* the lazy constructor (ghost counter of the model, incremented at the constructor step between the successful
+   validation and the creation of the node) runs exactly once in a LoadOrStoreLazy that inserts and never in one
+   that finds the key present *)
+Theorem C04_lazymap_lazy_once : forall progs sched,
+  LazyMap.quiescent (LazyMap.run true progs sched) = true ->
+  forall o, In o (LazyMap.history true progs sched) -> forall k v h, call o = LoadOrStoreLazy k v h ->
+  exists x loaded, ret o = RLazy x loaded (if loaded then 0 else 1)%nat.
+Proof. exact LzmLinThm.lazymap_lazy_once. Qed.
+
+(* non-vacuity for the extended operation set: two racing LoadOrStoreLazy of key 1 (one inserts, constructor ran
+   once; the other fails validation, searches again and loads, constructor never ran), LoadOrStore, Delete, Load *)
+Example C04_lazymap_ext_nonvacuous :
+  LazyMap.quiescent (LazyMap.run true LzmLinThm.ex2_progs LzmLinThm.ex2_sched) = true /\
+  map (fun o => (call o, ret o)) (LazyMap.history true LzmLinThm.ex2_progs LzmLinThm.ex2_sched) =
+    [(LoadOrStoreLazy 1 20 0, RLazy 20 false 1); (LoadOrStoreLazy 1 10 0, RLazy 20 true 0);
+     (LoadOrStore 1 7 0, RLoS 20 true); (LoadOrStore 2 5 0, RLoS 5 false);
+     (Delete 1, RBool true); (Delete 1, RBool false); (Load 1, RGet 0 false); (Load 2, RGet 5 true)] /\
+  map_lin_check [] (LazyMap.history true LzmLinThm.ex2_progs LzmLinThm.ex2_sched) = true.
+Proof. vm_compute. auto. Qed.
 
 Print Assumptions C04_seq_map.
 Print Assumptions C04_seq_set.
@@ -431,3 +453,4 @@ Print Assumptions C04_lazymap_store_visible.
 Print Assumptions C04_lazymap_prerepair_refuted.
 Print Assumptions C04_lazymap_prerepair_history_rejected.
 Print Assumptions C04_lazymap_linearizable.
+Print Assumptions C04_lazymap_lazy_once.
